@@ -42,7 +42,7 @@ ACCESSORS = {
 AUTH_WRITES = {"pullAuthorize", "workerAuthorize", "adminAuthorize", "pullByRoute", "workerByRoute",
                "basicByRoute", "forwardByRoute", "hmacByRoute"}
 TABLE_WRITES = {"routes", "pathToRoute", "trendSignals", "adaptiveBackpressure", "ingressGlobalLimit", "ingressRouteLimits"}
-RELOAD_ORDER = ["os.ReadFile", "config.Parse", "config.Compile", "requiresRestartForReload", "state.loadAuth", "state.updateAll"]
+RELOAD_ORDER = ["os.ReadFile", "config.Parse", "config.Compile", "requiresRestartForReload", "state.loadAuthAnd", "state.updateAllLocked"]
 INGRESS_WIRING = {"ResolveRoute": "resolveIngress", "AllowedMethodsFor": "allowedMethodsFor", "AllowRequestFor": "allowIngress",
                   "AllowEnqueueFor": "allowIngressEnqueue", "BasicAuthFor": "basicAuthFor", "ForwardAuthFor": "forwardAuthFor",
                   "HMACAuthFor": "hmacAuthFor", "LimitsFor": "limitsFor", "TargetsFor": "targetsFor"}
@@ -73,32 +73,40 @@ def lint_source():
             problems.append("accessor %s reads %s, model says %s" % (name, sorted(got), sorted(fields)))
         if len(re.findall(r"s\.mu\.RLock\(\)", body)) != 1 or "s.mu.Lock()" in body:
             problems.append("accessor %s does not take the read lock exactly once" % name)
-    la = func_body(src, r"^func \(s \*runtimeState\) loadAuth\(.*\{$")
+    la = func_body(src, r"^func \(s \*runtimeState\) loadAuthAnd\(.*\{$")
     if la is None:
-        problems.append("loadAuth not found")
+        problems.append("loadAuthAnd not found (reload is no longer one critical section built by loadAuthAnd + alsoLocked)")
     else:
         if la.count("s.mu.Lock()") != 1 or la.count("s.mu.Unlock()") != 1:
-            problems.append("loadAuth does not have exactly one critical section")
+            problems.append("loadAuthAnd does not have exactly one critical section")
         else:
             pre, crit = la.split("s.mu.Lock()")
             crit, post = crit.split("s.mu.Unlock()")
             w = set(re.findall(r"\bs\.(\w+)\s*=[^=]", crit)) - {"retiredHMAC"}
             if w != AUTH_WRITES:
-                problems.append("loadAuth's critical section assigns %s, model says %s" % (sorted(w), sorted(AUTH_WRITES)))
+                problems.append("loadAuthAnd's critical section assigns %s, model says %s" % (sorted(w), sorted(AUTH_WRITES)))
             if re.search(r"\bs\.(\w+)\s*=[^=]", pre):
-                problems.append("loadAuth assigns a state field before taking the lock")
+                problems.append("loadAuthAnd assigns a state field before taking the lock")
             if "return fmt.Errorf" in crit or "return err" in crit or "return fmt.Errorf" in post:
-                problems.append("loadAuth has a failure exit inside or after its critical section")
+                problems.append("loadAuthAnd has a failure exit inside or after its critical section")
+            if "alsoLocked()" not in crit:
+                problems.append("loadAuthAnd does not run alsoLocked inside its critical section")
+    l1 = func_body(src, r"^func \(s \*runtimeState\) loadAuth\(.*\{$")
+    if l1 is None or "return s.loadAuthAnd(compiled, nil)" not in l1 or "s.mu" in l1:
+        problems.append("loadAuth is not loadAuthAnd(compiled, nil)")
     ua = func_body(src, r"^func \(s \*runtimeState\) updateAll\(.*\{$")
+    ual = func_body(src, r"^func \(s \*runtimeState\) updateAllLocked\(.*\{$")
     cl = func_body(src, r"^func \(s \*runtimeState\) configureIngressRateLimits\(.*\{$")
-    if ua is None or cl is None:
-        problems.append("updateAll/configureIngressRateLimits not found")
+    if ua is None or ual is None or cl is None:
+        problems.append("updateAll/updateAllLocked/configureIngressRateLimits not found")
     else:
-        w = set(re.findall(r"\bs\.(\w+)\s*=[^=]", ua)) | set(re.findall(r"\bs\.(\w+)\s*=[^=]", cl))
+        w = set(re.findall(r"\bs\.(\w+)\s*=[^=]", ual)) | set(re.findall(r"\bs\.(\w+)\s*=[^=]", cl))
         if w != TABLE_WRITES:
-            problems.append("updateAll assigns %s, model says %s" % (sorted(w), sorted(TABLE_WRITES)))
-        if ua.count("s.mu.Lock()") != 1 or "s.configureIngressRateLimits(compiled)" not in ua:
-            problems.append("updateAll is not one critical section including configureIngressRateLimits")
+            problems.append("updateAllLocked assigns %s, model says %s" % (sorted(w), sorted(TABLE_WRITES)))
+        if "s.mu." in ual or "s.mu." in cl or "s.configureIngressRateLimits(compiled)" not in ual:
+            problems.append("updateAllLocked takes the lock itself or does not configure the limiters")
+        if ua.count("s.mu.Lock()") != 1 or "s.updateAllLocked(compiled)" not in ua:
+            problems.append("updateAll is not Lock + updateAllLocked")
     rc = func_body(src, r"^func reloadConfig\(.*\{$")
     if rc is None:
         problems.append("reloadConfig not found")
@@ -106,6 +114,8 @@ def lint_source():
         calls = re.findall(r"\b(os\.ReadFile|config\.Parse|config\.Compile|requiresRestartForReload|state\.\w+)\(", rc)
         if calls != RELOAD_ORDER:
             problems.append("reloadConfig performs %s, model (reload_prog) says %s" % (calls, RELOAD_ORDER))
+        if "state.loadAuthAnd(compiled, func() { state.updateAllLocked(compiled) })" not in rc:
+            problems.append("reloadConfig does not publish both halves through loadAuthAnd(compiled, func() { state.updateAllLocked(compiled) })")
     ss = func_body(src, r"^func startServers\($") or src
     wiring = dict(re.findall(r"\bing\.(\w+) = state\.(\w+)\b", ss))
     if wiring != INGRESS_WIRING:
@@ -126,12 +136,16 @@ def lint_source():
 # ---------------------------------------------------------------------------
 
 def rewrite_run_go(ctx):
-    """DESIGN section 7: a copy of run.go that differs from the source only by inserted verifSync(...) lines."""
+    """DESIGN section 7: a copy of run.go that differs from the source only by inserted verifSync(...) lines:
+    "after-<m>" after every statement of reloadConfig that calls state.<m>(...) (between two of them a request can
+    run: a window), and "before-alsoLocked" inside loadAuthAnd's critical section between the assignment of the
+    authenticator fields and the call that assigns the route-table half (no request may run there).
+    Returns (path, after_points, has_inlock_point)."""
     path = os.path.join(C.REPO, "internal", "app", "run.go")
     src = open(path).read()
     m = re.search(r"^func reloadConfig\(.*\{$", src, flags=re.M)
     if not m:
-        return None, []
+        return None, [], False
     end = src.find("\n}\n", m.end())
     body = src[m.end():end].split("\n")
     out, points, i = [], [], 0
@@ -147,20 +161,29 @@ def rewrite_run_go(ctx):
                     out.append(body[j])
                     j += 1
                 if j == len(body):
-                    return None, []
+                    return None, [], False
                 out.append(body[j])
                 i = j
             out.append('%sverifSync("after-%s")' % (indent, name))
             points.append("after-" + name)
         i += 1
     new = src[:m.end()] + "\n".join(out) + src[end:]
+    inlock = False
+    ml = re.search(r"^func \(s \*runtimeState\) loadAuthAnd\(.*\{$", new, flags=re.M)
+    if ml:
+        e2 = new.find("\n}\n", ml.end())
+        k = new.find("\n\tif alsoLocked != nil {\n", ml.end(), e2)
+        lock = new.find("s.mu.Lock()", ml.end(), e2)
+        if k > 0 and 0 < lock < k:
+            new = new[:k] + '\n\tverifSync("before-alsoLocked")' + new[k:]
+            inlock = True
     # self-test: deleting the inserted lines gives the source back
-    back = "\n".join(l for l in new.split("\n") if not re.match(r'^\t+verifSync\("after-\w+"\)$', l))
+    back = "\n".join(l for l in new.split("\n") if not re.match(r'^\t+verifSync\("[\w-]+"\)$', l))
     if back != src or not points:
-        return None, []
+        return None, [], False
     dst = os.path.join(ctx.scratch, "run_sync.go")
     open(dst, "w").write(new)
-    return dst, points
+    return dst, points, inlock
 
 
 # ---------------------------------------------------------------------------
@@ -510,6 +533,9 @@ def model_predictions(ctx, shapes):
         req = "[" + "; ".join(COQ_CB[c] for c in cbs) + "]"
         if mode == "full":
             sched = "(repeat (AReq 0) %d ++ [AReload; AReload] ++ repeat (AReq 0) %d)" % (k, n - k)
+        elif mode == "inlock":
+            # the request is issued while the reload is inside its critical section: it can only run after it
+            sched = "([AReload] ++ repeat (AReq 0) %d)" % n
         else:
             sched = "(repeat AReload %d ++ repeat (AReq 0) %d ++ [AReload; AReload])" % (k + 1, n)
         defs.append("(map (fun o => map snd o) (observations code_shape 1 [%s] %s), P_no_mixture (observations code_shape 1 [%s] %s))"
@@ -725,19 +751,17 @@ def main(ctx, replay):
     cov = C.proof_coverage(info, "C18")
     assumptions = [
         "schedules: interleavings of whole critical sections (sync.RWMutex trusted); the harness forces a reload between two accessors of one request synchronously",
-        "the reload window is entered through an overlay copy of run.go that differs from the source by verifSync(...) lines only (self-checked); fallback: loadAuth/updateAll called separately",
+        "reloadConfig is instrumented through an overlay copy of run.go that differs from the source by verifSync(...) lines only (self-checked): after every state.<m>() statement of reloadConfig and inside loadAuthAnd's critical section before alsoLocked()",
         "file-system semantics of Model/FsAtomic.v (ordered name-space journal, per-inode data prefix + torn last write, fsync durability) is assumed of the OS",
         "strace renders every file/descriptor syscall of the child; SIGKILL injection stands for a process crash (not power loss)",
         "handlers are wired to the state by the shim as startServers does (assignments compared with the source text every run)",
     ]
     lint = lint_source()
-    sync_src, points = rewrite_run_go(ctx)
-    extra = {os.path.join(C.REPO, "internal", "app", "run.go"): sync_src} if sync_src else None
-    hbin, glog = C.go_build_harness(ctx, extra_replace=extra)
-    if hbin is None and extra:
-        ctx.notes.append("overlay copy of run.go did not build, falling back to the source: " + glog[-400:])
-        sync_src, points = None, []
-        hbin, glog = C.go_build_harness(ctx)
+    sync_src, points, inlock = rewrite_run_go(ctx)
+    if sync_src is None:
+        # DESIGN section 7: fail loudly rather than silently not entering the windows
+        raise RuntimeError("no sync point could be placed in reloadConfig (shape of the function changed): adapt props/c18.py rewrite_run_go")
+    hbin, glog = C.go_build_harness(ctx, extra_replace={os.path.join(C.REPO, "internal", "app", "run.go"): sync_src})
     if hbin is None:
         raise RuntimeError("harness build failed:\n" + glog[-3000:])
     info["hbin"] = hbin
@@ -801,7 +825,7 @@ def main(ctx, replay):
     shards = [scs[i::8] for i in range(8)]
 
     def run_shard(i):
-        rc, out, err = C.harness_run(hbin, ["reload-visibility"], {"dir": os.path.join(ctx.scratch, "v%d" % i), "scenarios": shards[i], "sync_points": len(points)})
+        rc, out, err = C.harness_run(hbin, ["reload-visibility"], {"dir": os.path.join(ctx.scratch, "v%d" % i), "scenarios": shards[i], "sync_points": len(points), "inlock": inlock})
         if rc != 0:
             raise RuntimeError("reload-visibility: " + err[-2000:])
         return json.loads(out)
@@ -810,6 +834,8 @@ def main(ctx, replay):
     with concurrent.futures.ThreadPoolExecutor(8) as ex:
         outs = list(ex.map(run_shard, range(8)))
     sync_avail = any(o["sync_point_available"] for o in outs)
+    inlock_reached = any(o["inlock_point_reached"] for o in outs)
+    n_inlock = n_inlock_progress = 0
     by_id = {}
     for o in outs:
         for s in o["scenarios"]:
@@ -831,8 +857,12 @@ def main(ctx, replay):
                 evaluations += 1
                 vers = classify(rr["old"], rr["new"], m)
                 cbs = tuple(c["cb"] for c in m["calls"])
-                mode = "full" if m["mode"].startswith("full") else "window"
+                mode = "full" if m["mode"].startswith("full") else ("inlock" if m["mode"] == "inlock" else "window")
                 k = m["position"] if mode == "full" else max(m["position"], 0)
+                if mode == "inlock":
+                    n_inlock += 1
+                    if m["progress"]:
+                        n_inlock_progress += 1
                 shapes.add((cbs, mode, k))
                 runs.append((sc, rq, rr, m, vers, cbs, mode, k))
     pred, plog = model_predictions(ctx, shapes)
@@ -861,15 +891,17 @@ def main(ctx, replay):
         if obs_ok and mode == "full":
             # an outcome that is neither old nor new although every identifiable read agrees: not explained by the model
             key = "reload-unexplained-outcome"
+        elif mode == "inlock":
+            key = "reload-two-lock-window"      # a request was served between the two halves although they share a critical section
         elif mode == "window":
-            key = "reload-two-lock-window" if (k == 0 and len(points) in (0, 2)) else "reload-lock-window:" + points[k]
+            key = "reload-two-lock-window" if (k == 0 and len(points) == 2) else "reload-lock-window:" + points[k]
         else:
             xs = [cb for cb, v in list(zip(cbs, vers))[:k] if v == "0"]
             ys = [cb for cb, v in list(zip(cbs, vers))[k:] if v == "1"]
             key = "reload-per-request-reads:%s->%s" % (xs[-1] if xs else cbs[k - 1], ys[0] if ys else cbs[min(k, len(cbs) - 1)])
         wit = {"scenario": sc["id"], "old_config": sc["old"], "new_config": sc["new"], "request": rq,
                "schedule": ("request runs accessors %s; reloadConfig(new) runs completely before accessor #%d (%s)" % (list(cbs), k + 1, cbs[k] if k < len(cbs) else "-"))
-               if mode == "full" else ("reloadConfig(new) is stopped after loadAuth (via %s); the whole request runs; then updateAll" % m["via"]),
+               if mode == "full" else ("reloadConfig(new) is held at %s; the whole request is issued; then the reload continues" % m["via"]),
                "accessor_versions": list(zip(cbs, vers)), "outcome": m["outcome"],
                "outcome_all_old": rr["old"]["outcome"], "outcome_all_new": rr["new"]["outcome"]}
         findings.setdefault(key, []).append(wit)
@@ -891,7 +923,9 @@ def main(ctx, replay):
         _report(ctx, key, what, {"kind": "schedule", "case": ws[0], "witnesses": len(ws), "other_scenarios": sorted({w["scenario"] for w in ws})[:12]})
     dist.update({"visibility_scenarios": len(scs), "visibility_restart_skipped": n_restart, "mixed_runs": n_mixed,
                  "runs_with_version_mixture": n_version_mix, "runs_with_observable_mixture": n_outcome_mix,
-                 "distinct_request_shapes_checked_against_model": len(shapes), "sync_points": points, "sync_point_used": sync_avail,
+                 "distinct_request_shapes_checked_against_model": len(shapes), "sync_points": points, "windows_between_sync_points_entered": sync_avail,
+                 "inlock_point_placed": inlock, "inlock_point_reached": inlock_reached, "requests_issued_while_reload_inside_its_critical_section": n_inlock,
+                 "of_which_got_an_accessor_answer_before_the_reload_left_it": n_inlock_progress,
                  "mixture_keys": {k: len(v) for k, v in sorted(findings.items())}})
     if findings:
         k0 = sorted(findings)[0]
